@@ -41,6 +41,8 @@ class PoolScn:
 
         proc = w.new_proc("p", P["backend"])
         em = proc.execmodel
+        if P.get("start_faults"):
+            w.opts["start_faults"] = True
         ctx = {"clock": 0, "ev": [], "runs": {}, "excs": {}}
 
         def tick(*ev):
@@ -90,6 +92,13 @@ class PoolScn:
                         reply = pool.spawn(body, tid, kind)
                     except ValueError:
                         tick("spawn-refused", tid, t0)
+                        if proto:
+                            done_evt.set()
+                            submit_lock.release()
+                        continue
+                    except RuntimeError:
+                        # the thread for this task could not be started: spawn() did not accept it
+                        tick("spawn-failed", tid, t0)
                         if proto:
                             done_evt.set()
                             submit_lock.release()
@@ -191,6 +200,10 @@ class PoolScn:
                 return V("task-ran-twice", f"task {tid} executed {n} times")
             if tid not in body_end:
                 return V("accepted-task-never-finished", f"task {tid} started but never finished")
+        failed = {e[2] for e in ev if e[1] == "spawn-failed"}
+        for tid in failed:
+            if ctx["runs"].get(tid):
+                return V("failed-spawn-ran", f"spawn of {tid} raised (no thread could be started) but the task ran anyway")
         for tid, n in ctx["runs"].items():
             if tid not in accepted and tid != "late" and n:
                 # a task may run before spawn() returns, but spawn must then return
@@ -351,6 +364,15 @@ def run(tier: str, only=None) -> int:
         rep.sample({"sub": name, "params": P})
         harness.run_exploration(rep, PID, name + "/sync", PoolScn, P, b_sync, max_execs=cap)
         harness.run_exploration(rep, PID, name + "/stmt", PoolScn, P, b_stmt, stmt=stmt, max_execs=cap)
+    # environment fault: the interpreter refuses to start a thread for a task (one fault per execution)
+    for primary in (False, True):
+        for backend in ("thread", "main_thread_only"):
+            base = {"primary": primary, "backend": backend, "getters": "get", "start_faults": True}
+            for j, Pf in enumerate((dict(base, spawners=[["ret", "ret"]], waiters=[None], shutdown=False), dict(base, spawners=[["ret"], ["raise"]], waiters=[None], shutdown=True, term=True))):
+                name = f"startfault/{j}:{'P' if primary else 'N'}:{backend}"
+                if only and only not in name:
+                    continue
+                harness.run_exploration(rep, PID, name, PoolScn, Pf, {"ps": 1, "env": 1, "free": 1} if tier == "quick" else {"ps": 2, "env": 1, "free": 2}, max_execs=cap)
     for backend in ("thread", "main_thread_only"):
         name = f"e2e/{backend}"
         if only and only not in name:
